@@ -3,6 +3,7 @@
 package main
 
 import (
+	"time"
 	"fmt"
 
 	"verifharness/hx"
@@ -26,3 +27,59 @@ func outsSmoke(c *hx.Ctx) {
 	}
 	fmt.Printf("tun: %v\n", w.tun)
 }
+
+func init() { hx.Register("outs_f12", outsF12) }
+
+func outsF12(c *hx.Ctx) {
+	for _, cfg := range [][2]string{{"", ""}, {"always", "always"}, {"always", "never"}, {"always", "private"}} {
+		w := outsStdWorld()
+		x, p1, q := w.n(outsX), w.n(outsP1), w.n(outsQ)
+		if cfg[0] != "" {
+			x.SetRecvError(cfg[0], cfg[1])
+		}
+		ds, da := nebulaDefaultRecvErr()
+		fmt.Printf("---- cfg send=%q accept=%q (defaults: send=%s accept=%s)\n", cfg[0], cfg[1], ds, da)
+		tp, _ := x.Tunnel(p1.vpn)
+		tq, _ := x.Tunnel(q.vpn)
+		mk := func(idx uint32) []byte {
+			b := make([]byte, 16)
+			return headerEncode(b, 2, 0, idx, 0)
+		}
+		show := func(tag string) {
+			_, okp := x.Tunnel(p1.vpn)
+			_, okq := x.Tunnel(q.vpn)
+			fmt.Printf("  %-40s tunnel(P1)=%v tunnel(Q)=%v udp-out=%d\n", tag, okp, okq, len(x.DrainUDP()))
+		}
+		show("start")
+		x.Inject(mustAP("192.0.2.66:1000"), mk(tp.Remote))
+		show("recv_error idx(P1) from other addr")
+		x.Inject(mustAP("192.0.2.66:1000"), mk(tq.Remote))
+		show("recv_error idx(Q, relayed) from other addr")
+		x.Inject(p1.udp, mk(tp.Local))
+		show("recv_error LOCAL idx(P1) from P1 addr")
+		x.Inject(p1.udp, mk(tp.Remote))
+		show("recv_error idx(P1) from P1 addr")
+	}
+}
+
+func init() { hx.Register("outs_time", func(c *hx.Ctx) {
+	t0 := timeNow()
+	for i := 0; i < 5; i++ {
+		outsStdWorld()
+	}
+	fmt.Println("5 worlds:", timeNow().Sub(t0))
+	w := outsStdWorld()
+	x := w.n(outsX)
+	t0 = timeNow()
+	for i := 0; i < 2000; i++ {
+		x.Digest()
+	}
+	fmt.Println("2000 digests:", timeNow().Sub(t0))
+}) }
+
+func timeNow() time.Time { return time.Now() }
+
+func init() { hx.Register("outs_victim", func(c *hx.Ctx) {
+	lab := outsNewLab(c)
+	fmt.Println(lab.victim())
+}) }
